@@ -39,6 +39,8 @@ CONSTANTS Scenarios,     \* set of scenarios Init chooses from
                          \* thread between send_samples() and the look at the future is lost)
           SelfFailFix,   \* TRUE: repaired actor.no_retry (a failure while handling a message from oneself, e.g. a wake-up, is
                          \* handled at once); FALSE: pinned behaviour (BenchmarkFailure is sent to oneself and may be overtaken)
+          StaleResetFix, \* TRUE: repaired DriverActor.receiveMsg_WakeupMessage (a relative-time reset wake-up that fires after the
+                         \* benchmark has finished is ignored); FALSE: pinned behaviour (it raises: BenchmarkFailure after completion)
           FaultKinds     \* set of fault kinds Init chooses from; {"none"} for the fault-free protocol (C01, C07)
 
 Eternal == -1
@@ -377,9 +379,9 @@ StoreFaultFires == flt.kind = "store" /\ flt.armed /\ ~flt.fired /\ drv.raw # <<
 DWakeup(i) ==
     /\ drv.alive /\ i \in 1..Len(dtimers)
     /\ LET rest == [k \in 1..(Len(dtimers) - 1) |-> IF k < i THEN dtimers[k] ELSE dtimers[k + 1]]
-       IN IF dtimers[i] = "reset" /\ Finished
+       IN IF dtimers[i] = "reset" /\ Finished /\ ~StaleResetFix
           THEN \* a relative-time reset that fires after the benchmark has finished finds no metrics store any more and raises
-               \* (behaviour of the code as it is): no_retry reports a BenchmarkFailure although the race is complete
+               \* (pinned behaviour): no_retry reports a BenchmarkFailure although the race is complete
                /\ dtimers' = rest
                /\ IF SelfFailFix THEN d2d' = d2d /\ rcbox' = Append(rcbox, Msg("BenchmarkFailure"))
                                  ELSE d2d' = Append(d2d, Msg("BenchmarkFailure")) /\ rcbox' = rcbox
